@@ -939,7 +939,8 @@ func (x *dbExec) stepInfo(is *iterState, from, to int) (hidden, cross bool) {
 
 // emitK renders the whole history of one iterator as a Coq case for the DBIter model
 func (x *dbExec) emitK(is *iterState) {
-	if x.kcases == nil || is.failed || len(is.moves) == 0 || len(is.raw) > x.kmax {
+	// walks on which the (P) oracle failed are emitted too (up to the failing call): (K) judges them independently
+	if x.kcases == nil || len(is.moves) == 0 || len(is.raw) > x.kmax {
 		return
 	}
 	n := len(is.moves)
